@@ -799,7 +799,7 @@ func foldRule(c *core.Ctx) {
 				continue
 			}
 			switch st.Method.Name() {
-			case "IsEmpty":
+			case "IsEmpty", "Head", "Tail":
 				if q, isQ := quantityOf(st.A[1]); isQ && !haveCur {
 					curQ, haveCur = q, true
 				}
@@ -812,55 +812,132 @@ func foldRule(c *core.Ctx) {
 	}
 	ok := haveAcc && haveCur
 	why := "no accumulator / cursor"
-	if ok {
-		for _, p := range an.Segs[nil] {
-			x0, s0 := accQ.ValueAt(p, len(p.Steps)), curQ.ValueAt(p, len(p.Steps))
-			m, _, args, isC := callParts(x0)
-			if !(isC && m == "Empty" && paramOf(args[0], fn, 1)) || !paramOf(s0, fn, 2) {
-				ok, why = false, "the fold must start from m.Empty() and the sequence argument; found x = "+short(x0)
-			}
-		}
-		for _, p := range an.Segs[h] {
-			x, s := accQ.StartSym(p), curQ.StartSym(p)
-			var isEmpty, head, tail, comb *ir.Step
-			for _, st := range p.Events(ir.KCall) {
-				if st.Method == nil {
-					continue
-				}
-				switch st.Method.Name() {
-				case "IsEmpty":
-					isEmpty = st
-				case "Head":
-					head = st
-				case "Tail":
-					tail = st
-				case "Combine":
-					comb = st
-				}
-			}
-			if isEmpty == nil || !ir.Same(isEmpty.A[1], s) {
-				ok, why = false, "every iteration must test IsEmpty of the cursor"
+	// The fold as a protocol on the pair (x, s), whichever way the loop is written (tested at the top or at the
+	// bottom behind an entry check): IsEmpty speaks about the current cursor and, when true, the accumulator is
+	// returned at once; Head / Combine / Tail touch the cursor only after it was found non-empty; per cursor position
+	// exactly one x = Combine(x, Head(s)) - accumulator first - and then s = Tail(s). What is known at the loop head
+	// ("the cursor was found non-empty", "its element is already combined") is the meet over the arrivals.
+	type fstate struct {
+		x, s            *ir.Term
+		known, combined bool
+	}
+	type hfact struct{ known, combined, set bool }
+	var headFact hfact
+	sim := func(p *ir.Path, st fstate) (fstate, string) {
+		for _, e := range p.Events(ir.KCall) {
+			if e.Method == nil {
 				continue
 			}
-			switch polarity(p, isEmpty.R) {
-			case 1:
-				if p.Exit != ir.ExitReturn || !ir.Same(p.Results[0], x) || len(calls(p)) != 1 {
-					ok, why = false, "when the cursor is empty the accumulator must be returned"
+			switch e.Method.Name() {
+			case "Empty":
+				if st.x != nil {
+					return st, "Empty() is taken twice"
 				}
-			case -1:
-				good := p.To == h && head != nil && tail != nil && comb != nil && len(calls(p)) == 4 &&
-					ir.Same(head.A[1], s) && ir.Same(tail.A[1], s) &&
-					paramOf(comb.A[0], fn, 1) && ir.Same(comb.A[1], x) && ir.Same(comb.A[2], head.R) &&
-					ir.Same(accQ.ValueAt(p, len(p.Steps)), comb.R) && ir.Same(curQ.ValueAt(p, len(p.Steps)), tail.R)
-				if !good {
-					ok, why = false, "each iteration must set x = Combine(x, Head(s)) with the accumulator first and s = Tail(s)"
-					if comb != nil {
-						why += fmt.Sprintf("; found Combine(%s, %s)", short(comb.A[1]), short(comb.A[2]))
+				if !paramOf(e.A[0], fn, 1) {
+					return st, "Empty() is not taken from the monoid argument"
+				}
+				st.x = e.R
+			case "IsEmpty":
+				if st.s == nil || !ir.Same(e.A[1], st.s) {
+					return st, "IsEmpty is asked about something other than the cursor"
+				}
+				switch polarity(p, e.R) {
+				case 1:
+					if p.Exit != ir.ExitReturn || len(p.Results) != 1 || st.x == nil || !ir.Same(p.Results[0], st.x) {
+						return st, "when the cursor is empty the accumulator must be returned"
 					}
+					// nothing may follow
+					last := true
+					seen := false
+					for _, e2 := range p.Events(ir.KCall) {
+						if seen && e2.Method != nil {
+							last = false
+						}
+						if e2 == e {
+							seen = true
+						}
+					}
+					if !last {
+						return st, "the fold goes on after it found the cursor empty"
+					}
+					return st, ""
+				case -1:
+					st.known = true
+				default:
+					return st, "the result of IsEmpty is not tested"
 				}
-			default:
-				ok, why = false, "the result of IsEmpty is not tested"
+			case "Head":
+				if st.s == nil || !ir.Same(e.A[1], st.s) || !st.known {
+					return st, "Head is taken of a cursor that was not found non-empty"
+				}
+			case "Combine":
+				hd, _, hargs, isC := callParts(e.A[2])
+				if st.x == nil || !paramOf(e.A[0], fn, 1) || !ir.Same(e.A[1], st.x) || !isC || hd != "Head" || len(hargs) != 2 || !ir.Same(hargs[1], st.s) || !st.known {
+					return st, fmt.Sprintf("each step must be x = Combine(x, Head(s)) with the accumulator first; found Combine(%s, %s)", short(e.A[1]), short(e.A[2]))
+				}
+				if st.combined {
+					return st, "an element is combined twice"
+				}
+				st.x, st.combined = e.R, true
+			case "Tail":
+				if st.s == nil || !ir.Same(e.A[1], st.s) || !st.known {
+					return st, "Tail is taken of a cursor that was not found non-empty"
+				}
+				if !st.combined {
+					return st, "the cursor moves on before its element was combined"
+				}
+				st.s, st.known, st.combined = e.R, false, false
 			}
+		}
+		return st, ""
+	}
+	arrive := func(p *ir.Path, st fstate) string {
+		if p.To != h {
+			if p.Exit == ir.ExitReturn && !(len(p.Results) == 1 && st.x != nil && ir.Same(p.Results[0], st.x)) {
+				return "a returning path does not return the accumulator"
+			}
+			return ""
+		}
+		if !ir.Same(accQ.ValueAt(p, len(p.Steps)), st.x) || !ir.Same(curQ.ValueAt(p, len(p.Steps)), st.s) {
+			return "the loop-carried accumulator / cursor are not the values the pass computed"
+		}
+		if !headFact.set {
+			headFact = hfact{st.known, st.combined, true}
+		} else if headFact.known != st.known || headFact.combined != st.combined {
+			return "the arrivals at the loop head disagree on what is known about the cursor"
+		}
+		return ""
+	}
+	if ok {
+		// entry segments first (they fix what is known at the head), then the loop segments, twice for the fixpoint
+		for _, p := range an.Segs[nil] {
+			st, w := sim(p, fstate{s: &ir.Term{Op: "param", Aux: fn.Params[2].Name(), Src: fn.Params[2]}})
+			if w == "" {
+				w = arrive(p, st)
+			}
+			if w == "" && p.To == h {
+				m, _, args, isC := callParts(accQ.ValueAt(p, len(p.Steps)))
+				if !(isC && m == "Empty" && paramOf(args[0], fn, 1)) || !paramOf(curQ.ValueAt(p, len(p.Steps)), fn, 2) {
+					w = "the fold must start from m.Empty() and the sequence argument"
+				}
+			}
+			if w != "" {
+				ok, why = false, w
+			}
+		}
+		for round := 0; round < 2 && ok; round++ {
+			for _, p := range an.Segs[h] {
+				st, w := sim(p, fstate{x: accQ.StartSym(p), s: curQ.StartSym(p), known: headFact.known, combined: headFact.combined})
+				if w == "" {
+					w = arrive(p, st)
+				}
+				if w != "" {
+					ok, why = false, w
+				}
+			}
+		}
+		if ok && !headFact.set {
+			ok, why = false, "the loop is never entered"
 		}
 	}
 	c.Check(ok, "fold", name, fn.Pos(), "x := Empty(); for !IsEmpty(s) { x = Combine(x, Head(s)); s = Tail(s) }", "%s", why)
